@@ -13,17 +13,33 @@ open Rivaas.Log
 def Prov (k v out : Bytes) : Prop :=
   (k ∈ sensitive ∧ out = redactedVal) ∨ (k ∉ sensitive ∧ out = v)
 
+/-- the key an attribute is printed under: its own, unless the user replacer renames it (the sensitive
+    keys never reach the user replacer) -/
+def outKey (u : UserRep) (k : Bytes) : Bytes :=
+  if k ∈ sensitive then k
+  else match u with
+    | .addPrefix p => p ++ k
+    | _ => k
+
+/-- the user replacer does not rename an ordinary key *into* a sensitive one -/
+def SafeRep (u : UserRep) : Prop := ∀ k, k ∉ sensitive → outKey u k ∉ sensitive
+
 /-! ### helper lemmas -/
 
 theorem lemma_replace (u : UserRep) (groups : List Bytes) (k v : Bytes) (kv : Bytes × Bytes)
-    (h : replaceAttr u groups k v = some kv) : kv.1 = k ∧ Prov k v kv.2 := by
+    (h : replaceAttr u groups k v = some kv) : kv.1 = outKey u k ∧ Prov k v kv.2 := by
   unfold replaceAttr at h
+  unfold outKey
   by_cases hs : k ∈ sensitive
   · simp only [hs, if_true, Option.some.injEq] at h
     subst h
-    exact ⟨rfl, Or.inl ⟨hs, rfl⟩⟩
-  · simp only [hs, if_false] at h
+    exact ⟨by simp [hs], Or.inl ⟨hs, rfl⟩⟩
+  · simp only [hs, if_false] at h ⊢
     cases u with
+    | addPrefix p =>
+      simp only [Option.some.injEq] at h
+      subst h
+      exact ⟨rfl, Or.inr ⟨hs, rfl⟩⟩
     | none =>
       simp only [Option.some.injEq] at h
       subst h
@@ -47,18 +63,18 @@ theorem lemma_key_concat (g : List Bytes) (k v : Bytes) : Pair.key (g ++ [k], v)
   simp [Pair.key]
 
 /-- the provenance of an output pair inside a list of input attributes -/
-def From (leaves : List (Bytes × Bytes)) (p : Pair) : Prop :=
-  ∃ kv ∈ leaves, Pair.key p = some kv.1 ∧ Prov kv.1 kv.2 p.2
+def From (u : UserRep) (leaves : List (Bytes × Bytes)) (p : Pair) : Prop :=
+  ∃ kv ∈ leaves, Pair.key p = some (outKey u kv.1) ∧ Prov kv.1 kv.2 p.2
 
-theorem lemma_from_mono {l l' : List (Bytes × Bytes)} {p : Pair} (hsub : ∀ x ∈ l, x ∈ l') (h : From l p) :
-    From l' p := by
+theorem lemma_from_mono {u : UserRep} {l l' : List (Bytes × Bytes)} {p : Pair} (hsub : ∀ x ∈ l, x ∈ l') (h : From u l p) :
+    From u l' p := by
   obtain ⟨kv, hm, hk⟩ := h
   exact ⟨kv, hsub kv hm, hk⟩
 
 /-! slog's handlers -/
 mutual
   theorem lemma_slogAttr : ∀ (u : UserRep) (groups : List Bytes) (a : Attr) (p : Pair),
-      p ∈ slogAttr u groups a → From (leavesOf a) p
+      p ∈ slogAttr u groups a → From u (leavesOf a) p
     | u, groups, .leaf k v, p, h => by
       simp only [slogAttr] at h
       split at h
@@ -74,7 +90,7 @@ mutual
       simp only [slogAttr] at h
       simpa [leavesOf] using lemma_slogAttrs u _ as p h
   theorem lemma_slogAttrs : ∀ (u : UserRep) (groups : List Bytes) (as : List Attr) (p : Pair),
-      p ∈ slogAttrs u groups as → From (leavesOfAll as) p
+      p ∈ slogAttrs u groups as → From u (leavesOfAll as) p
     | _, _, [], p, h => by simp [slogAttrs] at h
     | u, groups, a :: as, p, h => by
       simp only [slogAttrs, List.mem_append] at h
@@ -84,7 +100,7 @@ mutual
 end
 
 theorem lemma_slogChain (u : UserRep) (groups : List Bytes) (chain : List ChainOp) (call : List Attr)
-    (p : Pair) (h : p ∈ slogChain u groups chain call) : From (chainLeaves chain ++ leavesOfAll call) p := by
+    (p : Pair) (h : p ∈ slogChain u groups chain call) : From u (chainLeaves chain ++ leavesOfAll call) p := by
   induction chain generalizing groups with
   | nil => simpa [slogChain, chainLeaves] using lemma_slogAttrs u groups call p h
   | cons op rest ih =>
@@ -123,12 +139,12 @@ mutual
 end
 
 /-- … and every attribute that survives `consoleReplace` is an input attribute after ReplaceAttr -/
-def Repl (leaves : List (Bytes × Bytes)) (out : Bytes × Bytes) : Prop :=
-  ∃ kv ∈ leaves, out.1 = kv.1 ∧ Prov kv.1 kv.2 out.2
+def Repl (u : UserRep) (leaves : List (Bytes × Bytes)) (out : Bytes × Bytes) : Prop :=
+  ∃ kv ∈ leaves, out.1 = outKey u kv.1 ∧ Prov kv.1 kv.2 out.2
 
 mutual
   theorem lemma_creplace : ∀ (u : UserRep) (groups : List Bytes) (a a' : Attr),
-      consoleReplace u groups a = some a' → ∀ out ∈ leavesOf a', Repl (leavesOf a) out
+      consoleReplace u groups a = some a' → ∀ out ∈ leavesOf a', Repl u (leavesOf a) out
     | u, groups, .leaf k v, a', h, out, ho => by
       simp only [consoleReplace, Option.map_eq_some_iff] at h
       obtain ⟨kv, hr, rfl⟩ := h
@@ -142,7 +158,7 @@ mutual
       simp only [leavesOf] at ho ⊢
       exact lemma_creplaceAll u _ as out ho
   theorem lemma_creplaceAll : ∀ (u : UserRep) (groups : List Bytes) (as : List Attr),
-      ∀ out ∈ leavesOfAll (consoleReplaceAll u groups as), Repl (leavesOfAll as) out
+      ∀ out ∈ leavesOfAll (consoleReplaceAll u groups as), Repl u (leavesOfAll as) out
     | _, _, [], out, ho => by simp [consoleReplaceAll, leavesOfAll] at ho
     | u, groups, a :: as, out, ho => by
       simp only [consoleReplaceAll] at ho
@@ -159,15 +175,15 @@ mutual
 end
 
 theorem lemma_console_printed (u : UserRep) (groups pre : List Bytes) (as : List Attr) (p : Pair)
-    (h : p ∈ consolePrintAll pre (consoleReplaceAll u groups as)) : From (leavesOfAll as) p := by
+    (h : p ∈ consolePrintAll pre (consoleReplaceAll u groups as)) : From u (leavesOfAll as) p := by
   obtain ⟨out, hm, hk, hv⟩ := lemma_printAll pre _ p h
   obtain ⟨kv, hm', hk', hp⟩ := lemma_creplaceAll u groups as out hm
   exact ⟨kv, hm', by rw [hk, hk'], by rw [hv]; exact hp⟩
 
 /-- invariant of the console handler's bound attributes along a derivation chain -/
 theorem lemma_consoleChain (u : UserRep) (h : Console) (chain : List ChainOp) (L : List (Bytes × Bytes))
-    (hinv : ∀ p ∈ consolePrintAll [] h.attrs, From L p) :
-    ∀ p ∈ consolePrintAll [] (consoleChain u h chain).attrs, From (L ++ chainLeaves chain) p := by
+    (hinv : ∀ p ∈ consolePrintAll [] h.attrs, From u L p) :
+    ∀ p ∈ consolePrintAll [] (consoleChain u h chain).attrs, From u (L ++ chainLeaves chain) p := by
   induction chain generalizing h L with
   | nil => intro p hp; exact lemma_from_mono (by intro x hx; simp [hx]) (hinv p hp)
   | cons op rest ih =>
@@ -200,9 +216,9 @@ theorem lemma_consoleChain (u : UserRep) (h : Console) (chain : List ChainOp) (L
 /-- **Provenance.** Whatever handler type, user replacer, derivation chain and attribute trees: every
     `key=value` that reaches the output comes from an input attribute with that key, and its value
     is the marker if the key is sensitive and the attribute's own value otherwise. -/
-theorem provenance (c : Case) (p : Pair) (h : p ∈ emit c) : From (inputLeaves c) p := by
+theorem provenance (c : Case) (p : Pair) (h : p ∈ emit c) : From c.user (inputLeaves c) p := by
   unfold emit at h
-  have hslog : p ∈ slogChain c.user [] (.withAttrs c.root :: c.chain) c.call → From (inputLeaves c) p := by
+  have hslog : p ∈ slogChain c.user [] (.withAttrs c.root :: c.chain) c.call → From c.user (inputLeaves c) p := by
     intro h
     have := lemma_slogChain c.user [] _ c.call p h
     simpa [chainLeaves, inputLeaves, List.append_assoc] using this
@@ -220,17 +236,35 @@ theorem provenance (c : Case) (p : Pair) (h : p ∈ emit c) : From (inputLeaves 
 
 /-- **Redaction** (the statement's first sentence): a pair printed under a sensitive key shows the
     marker, for JSON, text and console, however the attribute reached the record. -/
-theorem redacted (c : Case) (p : Pair) (h : p ∈ emit c) (k : Bytes) (hk : Pair.key p = some k)
-    (hs : k ∈ sensitive) : p.2 = redactedVal := by
+theorem redacted (c : Case) (hu : SafeRep c.user) (p : Pair) (h : p ∈ emit c) (k : Bytes)
+    (hk : Pair.key p = some k) (hs : k ∈ sensitive) : p.2 = redactedVal := by
   obtain ⟨kv, _, hk', hp⟩ := provenance c p h
   rw [hk] at hk'
   cases hk'
   rcases hp with ⟨_, h2⟩ | ⟨h1, _⟩
   · exact h2
-  · exact absurd hs h1
+  · exact absurd hs (hu kv.1 h1)
+
+/-- every replacer that does not rename is safe; a prefixing one is safe when no sensitive key starts
+    with the prefix (`app_`, `x-`, …) -/
+theorem safeRep_of_no_rename (u : UserRep) (h : ∀ p, u ≠ .addPrefix p) : SafeRep u := by
+  intro k hk
+  have : outKey u k = k := by
+    unfold outKey
+    rw [if_neg hk]
+    cases u with
+    | addPrefix p => exact absurd rfl (h p)
+    | _ => rfl
+  rw [this]; exact hk
+
+theorem safeRep_prefix (p : Bytes) (h : ∀ s ∈ sensitive, ¬ p <+: s) : SafeRep (.addPrefix p) := by
+  intro k hk hmem
+  unfold outKey at hmem
+  simp only [hk, if_false] at hmem
+  exact h _ hmem (List.prefix_append p k)
 
 /-- the model passes the executable oracle the driver applies to the implementation's output -/
-theorem emit_meets_spec (c : Case) : (emit c).all pairOK = true := by
+theorem emit_meets_spec (c : Case) (hu : SafeRep c.user) : (emit c).all pairOK = true := by
   rw [List.all_eq_true]
   intro p hp
   unfold pairOK
@@ -238,7 +272,7 @@ theorem emit_meets_spec (c : Case) : (emit c).all pairOK = true := by
   · rename_i k hk
     split
     · rename_i hs
-      simp [redacted c p hp k hk hs]
+      simp [redacted c hu p hp k hk hs]
     · rfl
   · rfl
 
@@ -262,6 +296,8 @@ def wUser : Attr := .leaf "user".toList "bob".toList
 def wCase (h : HType) : Case :=
   { h := h, user := .none, root := [], chain := [.withAttrs [.leaf "token".toList "T1".toList], .withGroup "g".toList],
     call := [wPw, wUser, .group "h".toList [.leaf "api_key".toList "K1".toList]] }
+
+example : SafeRep (.addPrefix "app_".toList) := safeRep_prefix _ (by decide)
 
 /-- the hypotheses of `redacted` are met: three sensitive pairs are printed by each handler type -/
 example : ((emit (wCase .json)).filter fun p => decide (p.2 = redactedVal)).length = 3 := by decide
